@@ -1,5 +1,6 @@
 import Hoot.Model.Uri
 import Hoot.Proofs.FlowWF
+import Hoot.Proofs.SendFresh
 import Hoot.Props.C06
 
 /-! # C09 — flows follow the documented state graph; readiness agrees with advancing
@@ -180,6 +181,60 @@ theorem C09_edges (hack : Bool) (f : Flow) (s : FState) (h : (f.step hack .proce
   · unfold stepRedirect at h; simp at h; exact h.symm
   · unfold stepCleanup at h; simp [notOffered] at h
 
+/-- `Unsent` (Proofs/SendFresh.lean) holds after every history from a well-formed start that has it -/
+theorem unsent_history (hack : Bool) (ops : List Op) : ∀ (f : Flow), f.WF → Unsent f → okAlong hack f ops →
+    Unsent (runOps hack f ops).1 := by
+  induction ops with
+  | nil => intro f _ hu _; exact hu
+  | cons op ops ih =>
+    intro f hwf hu hok
+    have hwf' := (wf_step hack f op hwf hok.1).2
+    have hu' : Unsent (f.step hack op).1 := by
+      by_cases hp : f.preBody
+      · exact unsent_step hack f op hwf hu hp
+      · intro _ hpre; exact absurd hpre (step_not_preBody hack f op hp)
+    exact ih _ hwf' hu' hok.2
+
+/-- **C09 (a flow that advanced is fully usable in its new state — the body state).** After ANY history of
+    permitted calls on a fresh flow — header additions, send-body-despite-method, any number of head writes
+    including further ones after the head is complete (D12), readiness queries, premature advance attempts,
+    `try_read_100` on arbitrary bytes — the step that enters the body state hands over a body writer that has not
+    ended: the body state's readiness query is false, so advancing from it yields nothing (`C09_ready`) until the
+    caller has written, reported or ended the body there. -/
+theorem C09_body_state_fresh (hack : Bool) (m : Method) (v : Version) (u : Uri) (orig : List Hdr) (ops : List Op)
+    (hok : okAlong hack (Flow.new m v u orig) ops)
+    (he : ((runOps hack (Flow.new m v u orig) ops).1.step hack .proceed).2 = .state .sendBody) :
+    ((runOps hack (Flow.new m v u orig) ops).1.step hack .proceed).1.st = .sendBody ∧
+    ((runOps hack (Flow.new m v u orig) ops).1.step hack .proceed).1.call.writer.ended = false ∧
+    ((runOps hack (Flow.new m v u orig) ops).1.step hack .proceed).1.canProceed = .ok false ∧
+    (((runOps hack (Flow.new m v u orig) ops).1.step hack .proceed).1.step hack .proceed).2 = .none := by
+  have hwf := (C09_history hack ops _ (Flow.new_wf m v u orig) hok).2
+  have hu := unsent_history hack ops _ (Flow.new_wf m v u orig) (Flow.new_unsent m v u orig) hok
+  generalize (runOps hack (Flow.new m v u orig) ops).1 = f at hwf hu he ⊢
+  -- only SendRequest and Await100 have an edge into the body state, and only with the with-body holder
+  have hedge := C09_edges hack f .sendBody he
+  have hpre : f.preBody ∧ f.holder = .withBody := by
+    have hh := hwf.holder
+    have hsd := hwf.send
+    unfold graphSpec at hedge
+    unfold holderOk at hh
+    unfold sendOk at hsd
+    unfold Flow.preBody
+    cases hs : f.st <;> rw [hs] at hedge hh hsd <;> simp only at hedge hh
+    · cases hedge
+    · by_cases hb : f.shouldSendBody = true
+      · exact ⟨Or.inr (Or.inl rfl), (hsd (Or.inr rfl)).mp hb⟩
+      · simp [hb] at hedge
+    · exact ⟨Or.inr (Or.inr rfl), hh⟩
+    · cases hedge
+    · (repeat' split at hedge) <;> cases hedge
+    · split at hedge <;> cases hedge
+    · cases hedge
+    · cases hedge
+  obtain ⟨h1, _, h3, h4⟩ := enter_sendBody_fresh hack f hu hpre.1 hpre.2 he
+  have hwf2 := (wf_step hack f .proceed hwf (by simp [Op.okFor])).2
+  exact ⟨h1, h3, h4, by rw [(C09_ready hack _ hwf2 (Or.inr (Or.inl h1))).1 h4]⟩
+
 /-- **C09 (following a redirect).** The flow produced by `as_new_flow` is well-formed: a complete, usable
     flow in the prepare state. -/
 theorem followFlow_wf (prev : AReq) (nm : Method) (uri : Uri) (sameHost : Bool) : (followFlow prev nm uri sameHost).WF := by
@@ -205,3 +260,13 @@ def d11Flow : Flow :=
 #guard (match ((d11Flow.asNewFlow false).1.asNewFlow false).2 with | .fault (.panic _) => true | _ => false)
 
 example : (Flow.new .post .h11 { scheme := "http", host := "a", port := none, path := "/", query := none } []).WF := C09_init _ _ _ _
+
+-- the hypotheses of `C09_body_state_fresh` are met by a history that writes the head twice (the D12 shape):
+-- POST without framing headers, head written, written again, then advance (evaluated, not kernel-reduced)
+def c09FreshExample : Bool :=
+  let u : Uri := { scheme := "http", host := "a.test", port := none, path := "/p", query := none }
+  let f := (runOps false (Flow.new .post .h11 u []) [.proceed, .write 1000, .write 1000, .canProceed]).1
+  match f.step false .proceed with
+  | (f', .state .sendBody) => (match f'.canProceed with | .ok false => true | _ => false) && !f'.call.writer.ended
+  | _ => false
+#guard c09FreshExample
